@@ -183,16 +183,19 @@ def filter_by_motion(poses: typing.Sequence[np.ndarray],
         angle_threshold = np.deg2rad(angle_threshold)
 
     positions = np.array([pose[:3, 3] for pose in poses])
-    distances = geometry.accumulated_distances(positions)
+    step_lengths = np.linalg.norm(positions[1:] - positions[:-1], axis=1)
     previous_angle_id = 0
-    previous_distance = 0.
+    # Path since the last kept pose, accumulated from zero: differences of
+    # the path length from the start lose short steps on long trajectories.
+    current_distance = 0.
 
     filtered_ids = [0]
     for i in range(1, len(poses)):
-        if distances[i] - previous_distance >= distance_threshold:
+        current_distance += step_lengths[i - 1]
+        if current_distance >= distance_threshold:
             filtered_ids.append(i)
             previous_angle_id = i
-            previous_distance = distances[i]
+            current_distance = 0.
             continue
         current_angle = lie.so3_log_angle(
             lie.relative_so3(poses[previous_angle_id][:3, :3],
@@ -200,7 +203,7 @@ def filter_by_motion(poses: typing.Sequence[np.ndarray],
         if current_angle >= angle_threshold:
             filtered_ids.append(i)
             previous_angle_id = i
-            previous_distance = distances[i]
+            current_distance = 0.
             continue
 
     return filtered_ids
